@@ -245,14 +245,42 @@ func parseLiteral(token lex.Token) (e any, err error) {
 	}
 
 	// if it contains unescaped wildcards then it is a wildcard string
-	if strings.ContainsAny(token.Val, "*?") {
+	if hasUnescapedWildcard(token.Val) {
 		return expr.WILD(token.Val), nil
 	}
 
 	// if it contains an escape string then strip it out now
 	if strings.Contains(token.Val, `\`) {
-		return expr.Lit(strings.ReplaceAll(token.Val, `\`, "")), nil
+		return expr.Lit(unescape(token.Val)), nil
 	}
 
 	return expr.Lit(token.Val), nil
+}
+
+// hasUnescapedWildcard checks whether the string contains a wildcard that is not preceded by an escape.
+func hasUnescapedWildcard(in string) bool {
+	for i := 0; i < len(in); i++ {
+		switch in[i] {
+		case '\\':
+			i++ // the next character is escaped so it can't be a wildcard
+		case '*', '?':
+			return true
+		}
+	}
+	return false
+}
+
+// unescape removes the escape characters but keeps the characters they escape (including an escaped escape).
+func unescape(in string) string {
+	out := make([]byte, 0, len(in))
+	for i := 0; i < len(in); i++ {
+		if in[i] == '\\' {
+			i++
+			if i == len(in) {
+				break
+			}
+		}
+		out = append(out, in[i])
+	}
+	return string(out)
 }
